@@ -23,9 +23,11 @@ VERIF = os.path.dirname(os.path.abspath(__file__))
 REPO = os.environ.get("VERIF_REPO", "/repo")
 LEAN = os.path.join(VERIF, "lean")
 HARN = os.path.join(VERIF, "harness")
-CACHE = os.path.join(VERIF, ".cache")
-EVID = os.path.join(VERIF, "evidence")
-REPLAYS = os.path.join(VERIF, "replays")
+# the three output locations can be redirected (used by seeded/run_against.py so that runs against a mutated copy of the
+# repository neither pollute the build cache nor overwrite the evidence of the real tree)
+CACHE = os.environ.get("VERIF_CACHE", os.path.join(VERIF, ".cache"))
+EVID = os.environ.get("VERIF_EVIDENCE_DIR", os.path.join(VERIF, "evidence"))
+REPLAYS = os.environ.get("VERIF_REPLAYS", os.path.join(VERIF, "replays"))
 DRIVER = os.path.join(LEAN, ".lake", "build", "bin", "driver")
 NCPU = min(16, os.cpu_count() or 4)
 ALLOWED_AXIOMS = {"propext", "Classical.choice", "Quot.sound"}
@@ -177,6 +179,9 @@ CXX = ["g++", "-std=c++17", "-O1", "-g", "-fno-access-control", "-Wno-invalid-of
 
 def build_client(name, extra_flags=(), tag="", tap=False):
     """returns (path or None, compiler output)"""
+    if extra_flags and not tag:
+        # one cache entry per flag set (e.g. a sanitizer build of the same client next to the plain one)
+        tag = "-f" + hashlib.sha256(" ".join(extra_flags).encode()).hexdigest()[:8]
     if tap:
         extra_flags = tuple(extra_flags) + ("-fsanitize=thread",)
         tag = tag + "-tap"
@@ -538,6 +543,81 @@ def explore(prop, tier, seed, comp_names, t0):
     return stats, problems
 
 
+def run_failures(c, r):
+    """property-level failures of one parsed run (independent of the Lean verdict): list of strings"""
+    out = []
+    if r["status"] in ("crash", "incomplete"):
+        out.append("crash")
+        return out
+    if r["status"].startswith("deadlock") or r["status"] == "steplimit":
+        out.append(r["status"].split(":")[0])
+    out += r["fails"]
+    if c.get("oracle") is not None:
+        why = c["oracle"](r)
+        if why:
+            out.append(why)
+    return out
+
+
+def signature(text):
+    return re.sub(r"\d+", "N", text.split("\n")[0])[:80]
+
+
+def shrink(c, exe, run, what, budget_s=20):
+    """delta-debugging of a failing script (only for components whose every op sequence is a valid, terminating script:
+    c['shrinkable']).  A candidate is kept when some schedule of it fails with the same signature.  Returns a run dict."""
+    if not c.get("shrinkable") or not run or not run.get("script") or run["script"] == "?":
+        return run
+    sig = signature(what)
+    if sig.startswith(("deadlock", "steplimit")):
+        return run
+    t_end = time.time() + budget_s
+    best = run
+    parts = run["script"].split(";")
+    cfg, threads = parts[0], [[o for o in p.split(",") if o] for p in parts[1:]]
+
+    def attempt(ths):
+        ths = [t for t in ths if t]
+        if not ths:
+            return None
+        text = run_client(exe, ["--script", ";".join([cfg] + [",".join(t) for t in ths]), "--runs", "24",
+                                "--seed", str(run.get("seed") or 1)], 24, timeout=60)
+        for r in parse_runs(text):
+            if any(signature(f) == sig for f in run_failures(c, r)):
+                return r
+        return None
+
+    changed = True
+    while changed and time.time() < t_end:
+        changed = False
+        # drop whole threads, then halves, then single ops
+        for i in range(len(threads)):
+            cand = threads[:i] + threads[i + 1:]
+            r = attempt(cand)
+            if r:
+                threads, best, changed = [t for t in cand if t], r, True
+                break
+        if changed:
+            continue
+        for i in range(len(threads)):
+            n = len(threads[i])
+            chunk = max(1, n // 2)
+            while chunk >= 1 and not changed and time.time() < t_end:
+                j = 0
+                while j < len(threads[i]) and time.time() < t_end:
+                    cand = [list(t) for t in threads]
+                    del cand[i][j:j + chunk]
+                    r = attempt(cand)
+                    if r:
+                        threads, best, changed = [t for t in cand if t], r, True
+                        break
+                    j += chunk
+                chunk //= 2
+            if changed:
+                break
+    return best
+
+
 def run_check(prop, tier, seed):
     t0 = time.time()
     spec = PROPS[prop]
@@ -598,9 +678,16 @@ def run_check(prop, tier, seed):
             continue
         reported.add(sig)
         r = p["run"] or {}
+        orig_script = r.get("script")
+        cc = COMPONENTS.get(p["component"], {})
+        if cc.get("shrinkable") and p["run"]:
+            exe, _ = build_client(cc["client"], tuple(cc.get("flags", ())), tap=cc.get("tap", False))
+            if exe:
+                r = shrink(cc, exe, p["run"], p["detail"])
         path = write_replay(prop, dict(property=prop, kind="failing-input", component=p["component"], what=p["detail"],
                                        script=r.get("script"), seed=r.get("seed"), strategy=r.get("strat"),
                                        decisions=r.get("decisions"), trace=r.get("trace"), model_verdict=r.get("verdict"),
+                                       original_script=orig_script if orig_script != r.get("script") else None,
                                        lean_problem=lean_problem))
         violations.append((path, True, p["detail"].split("\n")[0][:200]))
         if len(violations) >= 3:
